@@ -1,6 +1,7 @@
 """C11 unsolvable or invalid input fails loudly and in bounded work.
 E2 (symbolic values through the unmodified solver) for non-convergence / evaluation errors / contraction => success;
 enumerated outcome checks for invalid declarations (no numeric input there)."""
+import os
 import builtins
 import keyword
 import math
@@ -463,6 +464,11 @@ def run(tier, seed):
                   'scenario also with another model started / half built / built-and-solved after every one of its construction calls'}
     chk.assumptions = ['sweep count is read from the public step trace (TraceStep)', 'TimeSeriesHolder.GenerateCSVtext stubbed to "" in E2 runs']
     chk.bounds['float-only arithmetic errors'] = 'overflow of ** / exp and complex results of fractional powers, in simultaneous and decorative equations, from period 1 or 2, reduction on/off: 14 enumerated outcome checks'
+    chk.bounds['symbolic local names (CrossHair)'] = ('names a + "__" + b (+ "__" + c), a and b up to 2 characters over "a_1" (AddCashFlow route: up to 1 over "a_"), c up to 1: refused by '
+                                                     'Sector.AddVariable / AddVariableFromEquation / AddCashFlow(eqn=) followed by main(); twin: names without the separator are accepted')
+    from vf import chx
+    H11 = os.path.join(os.path.dirname(os.path.dirname(os.path.abspath(__file__))), 'harness', 'c11_h.py')
+    chx.absorb(chk, H11, chx.run_file(H11, timeout=200 if tier == 'quick' else 600))
     chk.outside = ['contraction => success for more than one simultaneous variable (the property states up to 12): path count grows as sweeps^n - not reached, not claimed',
                    'domain errors of math functions (need float arguments)']
     for st, o in pmap(nc_case, ncs):
